@@ -37,6 +37,9 @@ type outcome struct {
 	RelayURL string `json:"relay,omitempty"`
 	Hold     bool   `json:"hold,omitempty"` // connect kinds: keep the session open (fills capacity)
 	Offer    string `json:"offer,omitempty"` // kind offer-custom: the offer handed to the proxy, verbatim
+	// connect kinds: the broker passes the answer on to the client at once but its HTTP reply to the
+	// proxy's POST /answer arrives this much later (the client is connected long before the reply)
+	AnswerDelayMs int `json:"answer_delay_ms,omitempty"`
 }
 
 type sessCase struct {
@@ -233,6 +236,9 @@ func (r *rig) roundTrip(req *http.Request) (*http.Response, error) {
 				r.fail("harness client rejects the proxy's answer: %v", err)
 			}
 		}
+		if o.AnswerDelayMs > 0 {
+			time.Sleep(time.Duration(o.AnswerDelayMs) * time.Millisecond)
+		}
 		return httpResp(200, `{"Status":"success"}`), nil
 	}
 	return httpResp(404, ""), nil
@@ -387,7 +393,7 @@ func runSessions(t *testing.T, c sessCase) error {
 		relayBefore := atomic.LoadInt64(&r.relayConns)
 		done := make(chan struct{})
 		go func() { sf.runSession(fmt.Sprintf("sid-%d", i)); close(done) }()
-		budget := 15 * time.Second
+		budget := 15*time.Second + time.Duration(o.AnswerDelayMs)*time.Millisecond
 		if o.Kind == "client-never-connects" || o.Kind == "client-connects-no-datachannel" || o.Kind == "offer-custom" {
 			// (a mutated offer that the proxy can still answer is a client that never connects)
 			budget = dataChannelTimeout + 15*time.Second
@@ -522,6 +528,7 @@ func genRelayURL(t *rapid.T, r *rig) string {
 var uSess = vstat.New("C16", "c16_sessions")
 
 var slowQuick int // 20-second outcomes generated so far in this process
+var slowAnsQuick int
 
 func init() { vstat.Register(uSess, runSessions) }
 
@@ -547,11 +554,18 @@ func TestVerifC16Sessions(t *testing.T) {
 		success, reached := false, false
 		held := 0
 		slow := 0
+		slowAns := 0
 		for i := 0; i < n; i++ {
 			var o outcome
 			switch rapid.IntRange(0, 9).Draw(rt, "class") {
 			case 0, 1, 2:
 				o = outcome{Kind: "connect-echo", RelayURL: relayURL, Hold: rapid.Bool().Draw(rt, "hold")}
+				if slowAns == 0 && (vstat.Thorough() && rapid.IntRange(0, 5).Draw(rt, "slowanswer") == 0 || !vstat.Thorough() && slowAnsQuick == 0 && vstat.Shard()%3 == 1) {
+					// 21 s: beyond the proxy's 20 s data-channel time-out, within its 30 s HTTP time-out
+					o.AnswerDelayMs = 21000
+					slowAns++
+					slowAnsQuick++
+				}
 				success = true
 				if o.Hold {
 					held++
@@ -589,6 +603,9 @@ func TestVerifC16Sessions(t *testing.T) {
 		}
 		nfail := 0
 		var labels []string
+		if slowAns > 0 {
+			labels = append(labels, "broker's reply to /answer arrives after the client connected (21 s)")
+		}
 		for k := range kinds {
 			labels = append(labels, "exit="+k)
 			if !strings.HasPrefix(k, "connect-echo") {
